@@ -187,7 +187,9 @@ def _gen_scores_case(rng, i):
     grouped = mixdt is None and ep == 0 and en == 0 and bool(pos) and bool(neg) and rng.random() < 0.15
     return {"op": "thrmetric", "stream": stream, "pos": pos, "neg": neg, "ep": ep, "en": en, "sc": sc, "ec": ec,
             "metric": metric, "via": via, "pk": pk, "k": k, "parr": parr, "ptype": ptype,
-            "ts": [float(t) for t in ts], "scalar": rng.random() < 0.3, "mixdt": mixdt, "grouped": grouped}
+            "ts": [float(t) for t in ts], "scalar": rng.random() < 0.3, "mixdt": mixdt, "grouped": grouped,
+            # also asked of a user subclass of Scores that redefines the named metric and adds a metric of its own
+            "subclass": via == "name" and not grouped and rng.random() < 0.3}
 
 
 def gen_one(rng, i, tier):
@@ -549,6 +551,26 @@ def _build_thrmetric(inp) -> Case:
         else:
             opts = list(inp["parr"])
         oys = [float(v) for v in np.asarray(getattr(s, metric)(np.array(opts, dtype=float)), dtype=float).reshape(-1)]
+    if inp.get("subclass") and raised is None and pos and neg:
+        # "metric by name" means the OBJECT's metric of that name: on a user subclass that redefines the metric (rates under
+        # a deployment prior) or adds one, the name gives exactly what passing the bound behaviour as a callable gives
+        def redefined(self_, threshold, _m=metric):
+            return 0.25 * np.asarray(getattr(Scores, _m)(self_, threshold)) + 0.75 * np.asarray(Scores.topr(self_, threshold))
+
+        Deployed = type("Deployed", (Scores,), {metric: redefined, "blend": redefined})
+        sd = Deployed(np.array(pos, dtype=dts[0]), np.array(neg, dtype=dts[1]), nb_easy_pos=inp["ep"], nb_easy_neg=inp["en"],
+                      score_class=inp["sc"], equal_class=inp["ec"])
+        for nm_ in (metric, "blend"):
+            rn = common.call(sd.threshold_at_metric, np.array(ts), nm_, parg)
+            rc = common.call(sd.threshold_at_metric, np.array(ts), lambda smp, thr, _n=nm_: getattr(smp, _n)(thr), parg)
+            if rn[0] != rc[0] or (rn[0] == "exc" and rn[1] != rc[1]):
+                pre.append(Issue("PROPFAIL", "metric-values", f"on a subclass of Scores defining {nm_}: by name -> {rn[:2] if rn[0] == 'exc' else 'ok'}, "
+                                 f"as a callable -> {rc[:2] if rc[0] == 'exc' else 'ok'}", sig + "/subclass-metric"))
+            elif rn[0] == "ok" and not (len(rn[1]) == len(rc[1]) and all(
+                    np.array_equal(np.asarray(u), np.asarray(w)) for u, w in zip(rn[1], rc[1]))):
+                pre.append(Issue("PROPFAIL", "metric-values", f"on a subclass of Scores that redefines {nm_}: threshold_at_metric({ts}, '{nm_}', "
+                                 f"{inp['pk']}) = {[np.asarray(u).tolist() for u in rn[1]][:4]} but with the object's {nm_} passed as a "
+                                 f"callable {[np.asarray(u).tolist() for u in rc[1]][:4]}", sig + "/subclass-metric"))
     obs = _flatten_result(res, ts, inp["scalar"], pre, sig) if raised is None else [[] for _ in ts]
     allabs = [abs(v) for v in pos + neg + list(inp["parr"])]
     scale = max([1.0] + allabs)
